@@ -72,11 +72,13 @@ def rule_bind(ctx: Ctx) -> List[Ob]:
         if isinstance(c, ast.Call) and (dotted(c.func) or "").split(".")[-1] == "line_search":
             b = bind_args(c, ls.node)
             for p, w in (("ftol", "ftol_linesearch"), ("gtol", "gtol_linesearch"), ("xtol", "xtol_linesearch"),
-                         ("max_steplength_user", None), ("sf", mm.sf), ("x0", mm.x), ("lb", mm.lb), ("ub", mm.ub)):
+                         ("max_steplength_user", None), ("sf", mm.sf), ("x0", mm.x), ("lb", mm.lb), ("ub", mm.ub),
+                         ("above_iter", f"{mm.istate}.nit"), ("is_boxed", "is_boxed")):
                 if w is None:
                     continue
                 n += 1
-                ok = src(b.get(p)) == w
+                from ..flow import Expander as _E
+                ok = src(b.get(p)) == w or (b.get(p) is not None and src(_E(ctx, mm.f).expand_at(c, b.get(p))) == w)
                 obs.append(ob("BIND", f"line_search({p}=) receives {w}", mm.f, b.get(p) or c, ok,
                               f"{p} <- {short(b.get(p))}", construct=f"line_search({p}={short(b.get(p), 30)})"))
     need(n >= 6, "BIND: line_search call not found in minimize_lbfgsb")
@@ -374,4 +376,38 @@ def rule_diag(ctx: Ctx) -> List[Ob]:
         ok = isprod and src(ext.value.slice) == iv and src(ext.targets[0].slice) == iv
         why = f"{short(ext)}: product of the operator with the probe={isprod}, read index={src(ext.value.slice)}, write index={src(ext.targets[0].slice)}"
     obs.append(ob("DIAG", "entry read and entry written are both index i of H e_i", f, ext or lp, ok, why, construct=short(ext) if ext else "extraction"))
+    return obs
+
+
+@rule("SCALEPOS", min_instances=1)
+def rule_scalepos(ctx: Ctx) -> List[Ob]:
+    """the packaged gradient scaler returns a positive factor (1 / max |x - P(x - g)|): a negative
+    factor would turn the minimisation into a maximisation"""
+    from .sign import Signs, NONNEG, POS
+    f = ctx.repo.func("utils.get_gradient_projection_unit_scaling")
+    from ..flow import Expander
+    ex = Expander(ctx, f)
+    obs: List[Ob] = []
+    for r in walk_no_nested(f.node):
+        if isinstance(r, ast.Return) and r.value is not None:
+            e = ex.expand_at(r, r.value)
+            S = Signs("lbounds", "ubounds", {"x"})
+
+            def sg(x):
+                # max / np.max of a single array argument keeps the sign class of its elements
+                if isinstance(x, ast.Call) and dotted(x.func) in ("max", "np.max", "np.amax", "np.nanmax", "np.linalg.norm") and len(x.args) >= 1:
+                    if dotted(x.func) == "np.linalg.norm":
+                        return NONNEG
+                    return sg(x.args[0])
+                if isinstance(x, ast.Call) and dotted(x.func) in ("abs", "np.abs", "np.absolute", "np.fabs"):
+                    return NONNEG
+                if isinstance(x, ast.BinOp) and isinstance(x.op, ast.Div):
+                    a, b = sg(x.left), sg(x.right)
+                    return NONNEG if a in (NONNEG, POS) and b in (NONNEG, POS) else "TOP"
+                return S.sg(x)
+            s0 = sg(e)
+            ok = s0 in (NONNEG, POS)
+            obs.append(ob("SCALEPOS", "scaling factor is positive", f, r, ok,
+                          f"sign({short(e, 70)}) = {s0}" + ("" if ok else ": the factor can be negative (e.g. when every component of the projected step has the same sign)"),
+                          construct="get_gradient_projection_unit_scaling: return value"))
     return obs
